@@ -59,6 +59,22 @@ pub proof fn lemma_run_fin<D: DiffHook>(rel: Rel, st: St, s: Seq<Ev>)
     }
 }
 
+/// the algorithm postconditions only look at the observable state of the hook
+pub proof fn lemma_post_transfer<Old: Index<usize> + ?Sized, New: Index<usize> + ?Sized, D: DiffHook>(
+    d0: D, x: D, f: D, old: &Old, or: Range<usize>, new: &New, nr: Range<usize>, lvl: int, optimal: bool, tail: Seq<Ev>, res: Result<(), D::Error>)
+  where New::Output: PartialEq<Old::Output>
+  requires obs_now(x) == obs_now(f), err_post(d0, x, res), seg_post(d0, x, old, or, new, nr, lvl, optimal, tail, res.is_ok())
+  ensures err_post(d0, f, res), seg_post(d0, f, old, or, new, nr, lvl, optimal, tail, res.is_ok())
+{
+    if res.is_ok() {
+        let s = choose|s: Seq<Ev>| #[trigger] seg(old, new, lvl, s, or.start as int, nr.start as int, or.end as int, nr.end as int)
+            && x.trace() == d0.trace() + s + tail && (d0.relies() ==> x.rely_st() == run_rel(d0.rely_rel(), d0.rely_st(), s + tail))
+            && (optimal ==> seg_eqs(rel_of(old, new), lvl, s, or.start as int, nr.start as int, or.end as int, nr.end as int)
+                    == lcs_len(old, or.start as int, or.end as int, new, nr.start as int, nr.end as int));
+        assert(f.trace() == d0.trace() + s + tail);
+    }
+}
+
 /// the running invariant of an algorithm body: the hook has received the segment `s` so far
 pub open spec fn alg_inv<D: DiffHook>(d: D, d0: D, t0: Seq<Ev>, s: Seq<Ev>, rel: Rel, lvl: int, rs0: St, o0: int, n0: int, oc: int, nc: int) -> bool {
     seg_rel(rel, lvl, s, o0, n0, oc, nc) && d.trace() == t0 + s && !d.failed() && d.relies() == d0.relies() && d.rely_rel() == d0.rely_rel() && d.accepts_replace() == d0.accepts_replace()
